@@ -124,7 +124,10 @@ pub fn rand_registry(rng: &mut StdRng, n: usize) -> Value {
                 2 | 3 => json!({"tag": "variant", "variants": (0..rng.gen_range(0..4)).map(|k| json!({
                     "name": format!("{t}V{k}"), "fields": fields(rng, &format!("{t}v{k}")), "index": rng.gen_range(0..256), "docs": docs(rng, &format!("{t}v{k}"))})).collect::<Vec<_>>()}),
                 4 => json!({"tag": "sequence", "ty": id(rng)}),
-                5 => json!({"tag": "array", "len": rng.gen_range(0..0x7fff_ffffu32), "ty": id(rng)}),
+                5 => {
+                    let len = [0u32, 0, 1, 2, 255, rng.gen_range(0..0x7fff_ffffu32)][rng.gen_range(0..6)];
+                    json!({"tag": "array", "len": len, "ty": id(rng)})
+                }
                 6 => json!({"tag": "tuple", "tys": (0..rng.gen_range(0..4)).map(|_| id(rng)).collect::<Vec<_>>()}),
                 7 => json!({"tag": "primitive", "prim": proj::PRIMS[rng.gen_range(0..15)].0}),
                 8 => json!({"tag": "compact", "ty": id(rng)}),
